@@ -1943,7 +1943,8 @@ def make_common_subexpression(field, prefix=None, scope=None):
         return result
 
     else:
-        if is_constant(field):
+        if is_constant(field) or isinstance(field, (Variable, Subscript)):
+            # nothing to share
             return field
         else:
             return CommonSubexpression(field, prefix, scope)
